@@ -54,7 +54,7 @@ CHECK_DEADLOCK FALSE
 
 TRACE_CFG = """SPECIFICATION %(spec)s
 CONSTANTS
-  D = {"o", "x", "y"}
+  D = {%(ds)s}
   Owner = "o"
   Confs = {}
   Amounts = {}
@@ -82,7 +82,7 @@ def mc_cfg(sd, name, **kw):
     return name
 
 
-def validate(ctx, sd, trace_path, n_events, what, timeout=900):
+def validate(ctx, sd, trace_path, n_events, what, timeout=900, ds='"o", "x", "y"'):
     """strict validation of an observed trace, observation-only pass on divergence (see checks/staking.py)."""
     dst = os.path.join(sd, "trace.ndjson")
     if os.path.abspath(trace_path) != os.path.abspath(dst):
@@ -117,8 +117,8 @@ def validate(ctx, sd, trace_path, n_events, what, timeout=900):
             return "invariant"
         return None
 
-    open(os.path.join(sd, "t_strict.cfg"), "w").write(TRACE_CFG % dict(spec="TraceSpec", invs=INVS))
-    open(os.path.join(sd, "t_obs.cfg"), "w").write(TRACE_CFG % dict(spec="ObsSpec", invs=INVS))
+    open(os.path.join(sd, "t_strict.cfg"), "w").write(TRACE_CFG % dict(spec="TraceSpec", invs=INVS, ds=ds))
+    open(os.path.join(sd, "t_obs.cfg"), "w").write(TRACE_CFG % dict(spec="ObsSpec", invs=INVS, ds=ds))
     r = ctx.tlc(sd, "Trace_Delegation", "t_strict.cfg", workers=1, timeout=timeout, count=False,
                 allow=("invariant", "postcondition", "property"))
     if r.ok:
@@ -238,7 +238,7 @@ def run(ctx):
     if want("sim"):
         sim_rest = "ACTION_CONSTRAINT EmitFull\nINVARIANTS " + GEN_INVS
         mc_cfg(sd, "sim.cfg", spec="GenSpec", defects="StaleCheckpointDefect", log="LogAppend", depth=40, confs="ConfsSim",
-               amounts="1, 2, 3, 4, 5, 6, 9, 14", rewards="0, 7, 10, 40", fees="0, 1000, 2500, 10000", caps="0, 14, 30",
+               amounts="1, 2, 3, 4, 5, 6, 9, 14", rewards="0, 7, 10, 41", fees="0, 1000, 2500, 3333, 10000", caps="0, 14, 30",
                maxepoch=8, maxtotal=60, maxrew=12, rest=sim_rest)
         beh2 = ctx.path("sim.ndjson")
         g2 = ctx.tlc(sd, "MC_Delegation", "sim.cfg", simulate=20 if q else 600, depth=40, timeout=1800, behaviours_out=beh2, count=False)
@@ -250,7 +250,8 @@ def run(ctx):
         tr = os.path.join(sd, "trace.ndjson")
         nt, ln = (80, 60) if q else (1200, 80)
         r3 = ctx.vh(exe, ["record", ctx.seed, nt, ln, tr])
-        st = validate(ctx, sd, tr, int(r3.stats.get("events", 0)), "random history on the real delegation contract")
+        st = validate(ctx, sd, tr, int(r3.stats.get("events", 0)), "directed/random history on the real delegation contract",
+                      ds='"o", "x", "y", "z"')
         if st in ("accepted", "drift"):
             ctx.cov(traces_validated_against_impl=nt, evaluations=int(r3.stats.get("events", 0)))
         ctx.cov(r3_actions=r3.stats.get("actions"))
